@@ -26,6 +26,54 @@ type vfCall struct {
 	Target string
 	Flags  uint32
 	Attrs  []byte
+	// AttrView: how the package's own accessors (Request.AttrFlags, Request.Attributes) differ from an independent
+	// decoding of Flags+Attrs ("" = they agree); filled for requests that carry attributes
+	AttrView string
+}
+
+// vfAttrView compares Request.Attributes()/AttrFlags() with the reference decoding of the raw attribute bytes.
+func vfAttrView(r *Request) string {
+	if r.Method != "Setstat" && r.Method != "Open" && r.Method != "Put" && r.Method != "Mkdir" {
+		return ""
+	}
+	w := &rfW{}
+	w.u32(r.Flags)
+	rd := &rfR{b: append(w.b, r.Attrs...)}
+	want := rd.attrs()
+	if rd.err != nil {
+		return "" // not well-formed: nothing to compare
+	}
+	got := r.Attributes()
+	fl := r.AttrFlags()
+	var probs []string
+	if fl.Size != (want.Flags&rfAttrSize != 0) || fl.UidGid != (want.Flags&rfAttrUIDGID != 0) || fl.Permissions != (want.Flags&rfAttrPerm != 0) || fl.Acmodtime != (want.Flags&rfAttrTime != 0) {
+		probs = append(probs, fmt.Sprintf("AttrFlags() = %+v for flags %#x", fl, r.Flags))
+	}
+	if got == nil {
+		return "Attributes() = nil"
+	}
+	if want.Flags&rfAttrSize != 0 && got.Size != want.Size {
+		probs = append(probs, fmt.Sprintf("Attributes().Size = %d, sent %d", got.Size, want.Size))
+	}
+	if want.Flags&rfAttrUIDGID != 0 && (got.UID != want.UID || got.GID != want.GID) {
+		probs = append(probs, fmt.Sprintf("Attributes() owner = %d:%d, sent %d:%d", got.UID, got.GID, want.UID, want.GID))
+	}
+	if want.Flags&rfAttrPerm != 0 && got.Mode != want.Perm {
+		probs = append(probs, fmt.Sprintf("Attributes().Mode = %#o, sent %#o", got.Mode, want.Perm))
+	}
+	if want.Flags&rfAttrTime != 0 && (got.Atime != want.Atime || got.Mtime != want.Mtime) {
+		probs = append(probs, fmt.Sprintf("Attributes() times = %d/%d, sent %d/%d", got.Atime, got.Mtime, want.Atime, want.Mtime))
+	}
+	if len(got.Extended) != len(want.Ext) {
+		probs = append(probs, fmt.Sprintf("Attributes().Extended has %d pairs, sent %d", len(got.Extended), len(want.Ext)))
+	} else {
+		for i, e := range want.Ext {
+			if got.Extended[i].ExtType != e[0] || got.Extended[i].ExtData != e[1] {
+				probs = append(probs, fmt.Sprintf("Attributes().Extended[%d] = %q=%q, sent %q=%q", i, got.Extended[i].ExtType, got.Extended[i].ExtData, e[0], e[1]))
+			}
+		}
+	}
+	return strings.Join(probs, "; ")
 }
 
 func (c vfCall) String() string {
@@ -379,7 +427,7 @@ func baseName(p string) string {
 func (h vfHBase) open(r *Request, iface, kind string) (*vfObj, error) {
 	s := h.s
 	r = s.req(r)
-	s.record(vfCall{Iface: iface, Method: r.Method, Path: r.Filepath, Flags: r.Flags, Attrs: append([]byte(nil), r.Attrs...)})
+	s.record(vfCall{Iface: iface, Method: r.Method, Path: r.Filepath, Flags: r.Flags, Attrs: append([]byte(nil), r.Attrs...), AttrView: vfAttrView(r)})
 	if s.OpenErr != nil {
 		if err := s.OpenErr(r.Method, r.Filepath); err != nil {
 			return nil, err
@@ -430,7 +478,7 @@ func (h vfHBase) Filewrite(r *Request) (io.WriterAt, error) {
 func (h vfHBase) Filecmd(r *Request) error {
 	s := h.s
 	r = s.req(r)
-	s.record(vfCall{Iface: "FileCmd", Method: r.Method, Path: r.Filepath, Target: r.Target, Flags: r.Flags, Attrs: append([]byte(nil), r.Attrs...)})
+	s.record(vfCall{Iface: "FileCmd", Method: r.Method, Path: r.Filepath, Target: r.Target, Flags: r.Flags, Attrs: append([]byte(nil), r.Attrs...), AttrView: vfAttrView(r)})
 	if s.CmdErr != nil {
 		if err := s.CmdErr(r.Method, r.Filepath); err != nil {
 			return err
